@@ -8,6 +8,7 @@ corr-S  : programs mixing load/store/strobe/csleep/asm with ordinary code: the e
           protected instructions / inline lines at -O0, -O1.. must be the one the C semantics
           prescribes (extracted CSem), and final states must agree; marked(opt) = marked(gen)
 """
+import re
 from lib.common import *
 from lib.asmcorr import *
 from lib.gen_c import gen_program, Prog
@@ -46,6 +47,9 @@ def machine_events(mtrace):
             continue
         m, _, op = e[1:].partition(':')
         op = bytes.fromhex(op).decode() if op and op != '-' else ''
+        # a parameter p of function f is the symbol f_p in the emitted code; the C trace names it p
+        # (the generator names parameters <function>p<k>)
+        op = re.sub(r'^(\w+?)_(\1p\d+)$', r'\2', op)
         if m in ('LDA', 'TXA', 'TYA'):
             out.append('LD')
         elif m == 'STA':
@@ -93,6 +97,23 @@ def run(ctx):
     # ---------------- corr-S: traces and states
     n_prog = 400 if quick else 8000
     progs = {'p%d' % i: gen_program(rng, dict(hw=True, bait=(i % 3 == 0), inline=(i % 2 == 1), signed=False, shorts=(i % 2 == 0), max_stmts=8)) for i in range(n_prog)}
+    # string literals and asm texts inside groups that are NOT selected, in front of the program: they must not
+    # disturb the texts of the asm statements that are
+    for i, (k, p_) in enumerate(list(progs.items())):
+        if i % 3 == 1:
+            p_.prefix = rng.choice(['#if 0\nchar *hidden = "nop ; zz";\nvoid hid() { asm("nop ; hidden"); }\n#endif\n',
+                                    '#ifdef NOT_DEFINED_Q\nvoid hid() { asm("nop ; one"); asm("nop ; two", 2); }\n#else\n#endif\n',
+                                    '#if 1\n#else\nconst char msg[] = "a" "b";\n#endif\n'])
+    # fixed: several asm statements after groups that are not selected and hold literals of their own
+    from lib.gen_c import Prog
+    for j, pre in enumerate(['#if 0\nchar *hidden = "nop ; zz";\n#endif\n', '#ifdef NOPE\nvoid hid() { asm("nop ; one"); asm("nop ; two", 2); }\n#endif\n',
+                             '#if 1\n#else\nconst char msg[] = "nop ; a" "nop ; b";\n#endif\n', '']):
+        q_ = Prog()
+        q_.globals = [('unsigned char', 'a', None, None, ''), ('unsigned char *const', 'HW0', 0x02, None, '')]
+        q_.funcs = []
+        q_.main = [('asm', 'nop ; first f%d' % j), ('expr', ('inc', 'x++', ('var', 'a'))), ('asm', 'nop ; second f%d' % j), ('strobe', 'HW0'), ('asm', 'nop ; third f%d' % j)]
+        q_.prefix = pre
+        progs['lit%d' % j] = q_
     # the fixed enumeration of register / hardware-statement shapes (tools/lib/gen_c.py, family E)
     from lib.gen_c import directed_programs
     progs.update({k: p for k, p in directed_programs().items() if k.startswith('E_')})
@@ -275,6 +296,12 @@ def trace_pass(ctx, progs, levels, nstates, rng):
                 seen.add((pid, tuple(exp)))
             for O in levels:
                 m = runs.get('%s@%s' % (pid, O), {}).get(k)
+                if m is not None and m['tag'] == 'fault' and m.get('why') == 'unknown inline assembly':
+                    # every asm text of these programs is one the machine model knows: another text was emitted
+                    viol.append({'why': 'an asm statement was emitted with a text the source does not contain', 'level': O,
+                                 'expected': exp, 'source': srcs[pid], 'pid': pid, 'vs_c': False,
+                                 'initial': describe_state(lay, states[k], None)})
+                    break
                 if m is None or m['tag'] != 'halt':
                     continue
                 if expected_vs_machine(cwatch, c, m, lay, mwatch):
